@@ -35,14 +35,29 @@ import (
 	"github.com/AliceO2Group/Control/configuration/componentcfg"
 )
 
+// pathExists tells whether there is a payload at the absolute path of the query. A backend which cannot
+// answer is an error, not "absent".
+func (s *Service) pathExists(query *componentcfg.Query) (absolutePath string, exists bool, err error) {
+	absolutePath = query.AbsoluteRaw()
+	exists, err = s.src.Exists(absolutePath)
+	if err != nil {
+		exists = false
+	}
+	return
+}
+
 func (s *Service) queryToAbsPath(query *componentcfg.Query) (absolutePath string, err error) {
 	if query == nil {
 		return
 	}
 
-	absolutePath = query.AbsoluteRaw()
-	if exists, _ := s.src.Exists(absolutePath); exists {
-		err = nil
+	var exists bool
+	absolutePath, exists, err = s.pathExists(query)
+	if err != nil {
+		err = fmt.Errorf("cannot check configuration path %s: %w", absolutePath, err)
+		return
+	}
+	if exists {
 		return
 	}
 
@@ -92,27 +107,39 @@ func (s *Service) getStringMap(path string) map[string]string {
 }
 
 func (s *Service) resolveComponentQuery(query *componentcfg.Query) (resolved *componentcfg.Query, err error) {
+	// A probe which the backend cannot answer ends the resolution: falling through to the next, less specific
+	// candidate could return an entry while a more specific one exists.
+	var exists bool
+
 	resolved = &componentcfg.Query{}
 	*resolved = *query
-	if _, err = s.queryToAbsPath(resolved); err == nil {
+	if _, exists, err = s.pathExists(resolved); err != nil {
+		return nil, err
+	} else if exists {
 		// requested path exists, return it
 		return
 	}
 
 	resolved = query.WithFallbackRunType()
-	if _, err = s.queryToAbsPath(resolved); err == nil {
+	if _, exists, err = s.pathExists(resolved); err != nil {
+		return nil, err
+	} else if exists {
 		// path with run type ANY exists, return it
 		return
 	}
 
 	resolved = query.WithFallbackRoleName()
-	if _, err = s.queryToAbsPath(resolved); err == nil {
+	if _, exists, err = s.pathExists(resolved); err != nil {
+		return nil, err
+	} else if exists {
 		// path with role name "any" exists, return it
 		return
 	}
 
 	resolved = resolved.WithFallbackRunType()
-	if _, err = s.queryToAbsPath(resolved); err == nil {
+	if _, exists, err = s.pathExists(resolved); err != nil {
+		return nil, err
+	} else if exists {
 		// path with run type ANY and role name "any" exists, return it
 		return
 	}
